@@ -147,6 +147,17 @@ pub fn measure(kind: Kind, pattern: Pattern, n: usize, seed: u64) -> Measured {
                 m.ops += 5;
             }
         }
+        // ---- operations naming an absent item
+        {
+            let absent = KeyId(u32::MAX - round as u32);
+            let (t, _) = timed(|| q.change_priority_borrowed(&absent, Prio::new(5)));
+            rec(&mut m.log_ops, "change_priority_absent", t);
+            let (t, _) = timed(|| q.change_priority_by_borrowed(&absent, |p| p.v = 5));
+            rec(&mut m.log_ops, "change_priority_by_absent", t);
+            let (t, _) = timed(|| q.remove_borrowed(&absent));
+            rec(&mut m.log_ops, "remove_absent", t);
+            m.ops += 3;
+        }
         // ---- insertion of new elements: new minimum, new maximum, middle
         for (name, p) in [("push_new_max", i32::MAX - 100), ("push_new_min", i32::MIN + 100), ("push_new_middle", r.range(-1000, 1000) as i32)] {
             let (t, _) = timed(|| q.push(Key::new(next_id, 0), Prio::new(p)));
@@ -189,6 +200,28 @@ pub fn measure(kind: Kind, pattern: Pattern, n: usize, seed: u64) -> Measured {
         both!(&mut q, qq => { for (_, p) in qq.iter_mut() { p.v = p.v.wrapping_mul(31).wrapping_add(7) % 1000; } })
     });
     m.bulk_ops.insert("iter_mut_rewrite_all_and_drop", (t, len));
+    // adversarial rewrites: every priority negated, then ascending / descending in visiting order
+    let (t, _) = timed(|| {
+        both!(&mut q, qq => { for (_, p) in qq.iter_mut() { p.v = p.v.wrapping_neg(); } })
+    });
+    m.bulk_ops.insert("iter_mut_negate_all_and_drop", (t, len));
+    let (t, _) = timed(|| {
+        both!(&mut q, qq => { let mut c = 0; for (_, p) in qq.iter_mut() { p.v = c; c += 1; } })
+    });
+    m.bulk_ops.insert("iter_mut_ascending_and_drop", (t, len));
+    let (t, _) = timed(|| {
+        both!(&mut q, qq => { let mut c = 0; for (_, p) in qq.iter_mut() { p.v = c; c -= 1; } })
+    });
+    m.bulk_ops.insert("iter_mut_descending_and_drop", (t, len));
+    let (t, _) = timed(|| {
+        let mut c = 0;
+        q.retain_mut(|_, p| {
+            p.v = c;
+            c += 1;
+            true
+        })
+    });
+    m.bulk_ops.insert("retain_mut_keep_all_ascending", (t, len));
     let (t, _) = timed(|| q.retain_mut(|k, p| {
         p.v = -p.v;
         k.id() % 2 == 0
